@@ -2,6 +2,7 @@
 baton changes hands only at preemption points (formula begin/end hooks)."""
 import os
 import sys
+import contextvars
 import threading
 
 PKG = os.sep + 'pycel' + os.sep
@@ -14,7 +15,7 @@ class Deadlock(Exception):
 class Baton:
     """schedule: callable(tid, own_point_index, global_point_index) -> tid to run next"""
 
-    def __init__(self, tids, decide, timeout=20.0, first=None):
+    def __init__(self, tids, decide, timeout=300.0, first=None):
         self.cond = threading.Condition()
         self.turn = first if first is not None else tids[0]
         self.alive = set(tids)
@@ -171,15 +172,29 @@ def run_pair(work1, work2, decide, observe, first=1, call_points=False, only=Non
         finally:
             baton.finish(tid)
 
+    # every other pair is started the way asyncio.to_thread / a worker pool of an
+    # async framework starts threads: inside a copy of the context of the
+    # spawning thread, which has used pycel before (warm_up)
+    CURRENT['pairs'] = CURRENT.get('pairs', 0) + 1
+    copied = CURRENT['pairs'] % 2 == 0
+    if copied:
+        warm_up()
+
     prev = _verif.set_sink(sink)
     undo = wrap_locks(baton)
     try:
-        ts = [threading.Thread(target=runner, args=(1, work1)),
-              threading.Thread(target=runner, args=(2, work2))]
+        # (the contexts are copied here, on the spawning thread)
+        targets = [lambda: runner(1, work1), lambda: runner(2, work2)]
+        if copied:
+            ctxs = [contextvars.copy_context(), contextvars.copy_context()]
+            targets = [lambda c=c, t=t, w=w: c.run(runner, t, w)
+                       for c, t, w in zip(ctxs, (1, 2), (work1, work2))]
+        ts = [threading.Thread(target=targets[0]),
+              threading.Thread(target=targets[1])]
         for t in ts:
             t.start()
         for t in ts:
-            t.join(timeout=60)
+            t.join(timeout=900)
             if t.is_alive():
                 raise Deadlock('thread did not finish')
     finally:
@@ -190,3 +205,16 @@ def run_pair(work1, work2, decide, observe, first=1, call_points=False, only=Non
 
 
 CURRENT = {}
+
+
+def warm_up():
+    """the spawning thread uses pycel (iterative calculation, an array
+    formula) once, through the public interface, before it copies its context"""
+    if CURRENT.get('warm'):
+        return
+    CURRENT['warm'] = True
+    from harness import xl
+    m = xl.compile_wb({'A1': '=A1/2+1', 'B1': 1, 'B2': 2}, arrays={'C1:C2': '=B1:B2*2'},
+                      cycles=dict(iterations=9, tolerance=0.5))
+    m.evaluate('S!A1')
+    m.evaluate('S!C1:C2')
